@@ -1,7 +1,7 @@
-import Secp.Proofs.Decode
-import Secp.Proofs.ScalarEnc
+import Secp.Proofs.BytesLemmas
+import Secp.Hand.Field
 /-!
-# The 48-byte wide reduction `HashToFieldElement` (both fields): the big-endian integer modulo `p` / `n`
+# The 48-byte wide reduction `HashToFieldElement`: lemmas shared by both fields (byte strings only)
 -/
 open Spec
 
@@ -21,23 +21,6 @@ theorem pad32_spec (b : Bytes) (hb : IsBytes b) (hl : b.length ≤ 32) :
   unfold Hand.pad32
   refine ⟨by simp; omega, isBytes_append (isBytes_replicate_zero _) hb, os2ip_zeros _ _⟩
 
-/-- `FromBytesNoReduce` (base field): the big-endian integer, as a canonical element -/
-theorem fp_fromBytesNoReduce (b : Bytes) (hb : IsBytes b) (hl : b.length ≤ 32) :
-    limbOk (Hand.Fp.fromBytesNoReduce b) ∧ limbVal (Hand.Fp.fromBytesNoReduce b) = ((os2ip b : Nat) : Fp) := by
-  obtain ⟨l32, hb32, hv⟩ := pad32_spec b hb hl
-  obtain ⟨okl, evl⟩ := bytesToLimbs_spec _ l32 hb32
-  unfold Hand.Fp.fromBytesNoReduce
-  obtain ⟨okm, vm⟩ := limb_toMont okl
-  exact ⟨okm, by rw [vm, evl, hv]⟩
-
-theorem fn_fromBytesNoReduce (b : Bytes) (hb : IsBytes b) (hl : b.length ≤ 32) :
-    sOk (Hand.Fn.fromBytesNoReduce b) ∧ sVal (Hand.Fn.fromBytesNoReduce b) = ((os2ip b : Nat) : Fn) := by
-  obtain ⟨l32, hb32, hv⟩ := pad32_spec b hb hl
-  obtain ⟨okl, evl⟩ := bytesToLimbs_spec _ l32 hb32
-  unfold Hand.Fn.fromBytesNoReduce
-  obtain ⟨okm, vm⟩ := s_toMont okl
-  exact ⟨okm, by rw [vm, evl, hv]⟩
-
 theorem split48 (input : Bytes) (hl : input.length = 48) :
     os2ip input = os2ip (input.take 24) * 2 ^ 192 + os2ip (input.drop 24) := by
   conv_lhs => rw [← List.take_append_drop 24 input]
@@ -45,67 +28,3 @@ theorem split48 (input : Bytes) (hl : input.length = 48) :
   have : (input.drop 24).length = 24 := by simp [hl]
   rw [this]
   norm_num
-
-/-- **HashToFieldElement (base field)**: `OS2IP(input) mod p` for every 48-byte input -/
-theorem fp_hashToField (input : Bytes) (hb : IsBytes input) (hl : input.length = 48) :
-    limbOk (Hand.Fp.hashToFieldElement input) ∧ limbVal (Hand.Fp.hashToFieldElement input) = ((os2ip input : Nat) : Fp) := by
-  have hbt : IsBytes (input.take 24) := fun x hx => hb x (List.mem_of_mem_take hx)
-  have hbd : IsBytes (input.drop 24) := fun x hx => hb x (List.mem_of_mem_drop hx)
-  unfold Hand.Fp.hashToFieldElement
-  simp only
-  have hr16 : (List.replicate 16 (0 : Nat)).length = 16 := by simp
-  have e1 : (List.replicate 16 0 ++ input).drop 40 = input.drop 24 := by
-    have : (List.replicate 16 0 ++ input).drop 40 = ((List.replicate 16 0 ++ input).drop 16).drop 24 := by
-      rw [List.drop_drop]
-    rw [this, List.drop_left' hr16]
-  have e2 : ((List.replicate 16 0 ++ input).drop 16).take 24 = input.take 24 := by
-    rw [List.drop_left' hr16]
-  have e3 : (List.replicate 16 0 ++ input).take 16 = List.replicate 16 0 := List.take_left' hr16
-  rw [e1, e2, e3]
-  obtain ⟨oka, va⟩ := fp_fromBytesNoReduce (input.drop 24) hbd (by simp [hl])
-  obtain ⟨okb, vb⟩ := fp_fromBytesNoReduce (input.take 24) hbt (by simp [hl])
-  obtain ⟨okc, vc⟩ := fp_fromBytesNoReduce (List.replicate 16 0) (isBytes_replicate_zero 16) (by simp)
-  have ok192 : limbOk Hand.Fp.two192 := ⟨by decide, by decide⟩
-  have v192 : limbVal Hand.Fp.two192 = ((2 ^ 192 : Nat) : Fp) := limbVal_of_mont _ _ (by decide)
-  have ok384 : limbOk Hand.Fp.two384 := ⟨by decide, by decide⟩
-  obtain ⟨okbm, vbm⟩ := limb_mul okb ok192
-  obtain ⟨okcm, vcm⟩ := limb_mul okc ok384
-  obtain ⟨ok1, v1⟩ := limb_add oka okbm
-  obtain ⟨ok2, v2⟩ := limb_add ok1 okcm
-  refine ⟨ok2, ?_⟩
-  have hc0 : os2ip (List.replicate 16 0) = 0 := by
-    have := os2ip_zeros 16 []; simpa [os2ip_nil] using this
-  rw [v2, v1, vbm, vcm, va, vb, vc, v192, hc0, split48 input hl]
-  push_cast; ring
-
-/-- **HashToFieldElement (scalar field)**: `OS2IP(input) mod n` for every 48-byte input -/
-theorem fn_hashToField (input : Bytes) (hb : IsBytes input) (hl : input.length = 48) :
-    sOk (Hand.Fn.hashToFieldElement input) ∧ sVal (Hand.Fn.hashToFieldElement input) = ((os2ip input : Nat) : Fn) := by
-  have hbt : IsBytes (input.take 24) := fun x hx => hb x (List.mem_of_mem_take hx)
-  have hbd : IsBytes (input.drop 24) := fun x hx => hb x (List.mem_of_mem_drop hx)
-  unfold Hand.Fn.hashToFieldElement
-  simp only
-  have hr16 : (List.replicate 16 (0 : Nat)).length = 16 := by simp
-  have e1 : (List.replicate 16 0 ++ input).drop 40 = input.drop 24 := by
-    have : (List.replicate 16 0 ++ input).drop 40 = ((List.replicate 16 0 ++ input).drop 16).drop 24 := by
-      rw [List.drop_drop]
-    rw [this, List.drop_left' hr16]
-  have e2 : ((List.replicate 16 0 ++ input).drop 16).take 24 = input.take 24 := by
-    rw [List.drop_left' hr16]
-  have e3 : (List.replicate 16 0 ++ input).take 16 = List.replicate 16 0 := List.take_left' hr16
-  rw [e1, e2, e3]
-  obtain ⟨oka, va⟩ := fn_fromBytesNoReduce (input.drop 24) hbd (by simp [hl])
-  obtain ⟨okb, vb⟩ := fn_fromBytesNoReduce (input.take 24) hbt (by simp [hl])
-  obtain ⟨okc, vc⟩ := fn_fromBytesNoReduce (List.replicate 16 0) (isBytes_replicate_zero 16) (by simp)
-  have ok192 : sOk Hand.Fn.two192 := ⟨by decide, by decide⟩
-  have v192 : sVal Hand.Fn.two192 = ((2 ^ 192 : Nat) : Fn) := sVal_of_mont _ _ (by decide)
-  have ok384 : sOk Hand.Fn.two384 := ⟨by decide, by decide⟩
-  obtain ⟨okbm, vbm⟩ := s_mul okb ok192
-  obtain ⟨okcm, vcm⟩ := s_mul okc ok384
-  obtain ⟨ok1, v1⟩ := s_add oka okbm
-  obtain ⟨ok2, v2⟩ := s_add ok1 okcm
-  refine ⟨ok2, ?_⟩
-  have hc0 : os2ip (List.replicate 16 0) = 0 := by
-    have := os2ip_zeros 16 []; simpa [os2ip_nil] using this
-  rw [v2, v1, vbm, vcm, va, vb, vc, v192, hc0, split48 input hl]
-  push_cast; ring
